@@ -34,6 +34,7 @@ type GFPairCase struct {
 }
 
 func checkGFPair(t TB, c GFPairCase) {
+	noteCase("C17", "gf-pair", c)
 	sp := gfSpecs[c.Field]
 	rf := ref.GF2{Poly: sp.PP, Size: sp.Size}
 	var gf *utils.GaloisField
@@ -199,6 +200,7 @@ func eqPoly(a, b []int) bool {
 }
 
 func checkPoly(t TB, c PolyCase) {
+	noteCase("C17", "gf-poly", c)
 	sp := gfSpecs[c.Field]
 	rf := ref.GF2{Poly: sp.PP, Size: sp.Size}
 	gf := utils.NewGaloisField(sp.PP, sp.Size, 1)
@@ -274,6 +276,7 @@ type RSCase struct {
 }
 
 func checkRS(t TB, c RSCase) (degOrder string) {
+	noteCase("C17", "rs-history", c)
 	sp := gfSpecs[c.Field]
 	rf := ref.GF2{Poly: sp.PP, Size: sp.Size}
 	var enc *utils.ReedSolomonEncoder
